@@ -163,7 +163,7 @@ def run_store(eng, p):
     for n in range(p["nexist"]):
         vals = [eng.int("ex%d_%d" % (n, i)) for i in range(L)]
         for v in vals + new:
-            eng.assume((v >= 0) & (v < 9))
+            eng.assume(v >= 0)          # indices into an origin of any size
         ev.create_dataset("basinmap%d" % n, data=SArr(vals, np.uint64))
         exist.append(vals)
     npx = SymNP()
@@ -469,6 +469,41 @@ def replay(case, params, v):
                 key = "Export.hdf5|basins|" + (
                     "empty-selection-raises" if fails and "raised" in
                     fails[0] else "wrong-map")
+            elif p["kind"] == "store":
+                import h5py
+                import json as _json
+                L = 2
+                new = np.array([int(vals.get("new%d" % i, 0) or 0)
+                                for i in range(L)], dtype=np.uint64)
+                exist = [np.array([int(vals.get("ex%d_%d" % (n, i), 0) or 0)
+                                   for i in range(L)], dtype=np.uint64)
+                         for n in range(p["nexist"])]
+                with Wm.RTDCWriter(po, mode="reset") as hw:
+                    hw.store_feature("deform", np.linspace(.1, .2, L))
+                    for n, m in enumerate(exist):
+                        hw.store_feature("basinmap%d" % n, m)
+                    hw.store_basin(basin_name="b", basin_type="file",
+                                   basin_format="hdf5",
+                                   basin_locs=["/d/o.rtdc"],
+                                   basin_map=new, verify=False)
+                with h5py.File(po, "r") as h:
+                    keys = list(h["basins"].keys())
+                    bd = _json.loads("\n".join(
+                        x.decode() if isinstance(x, bytes) else x
+                        for x in h["basins"][keys[0]][:]))
+                    nm = bd["mapping"]
+                    stored = h["events"][nm][:]
+                    if stored.tolist() != new.tolist():
+                        fails.append("store_basin(basin_map=%r) refers to "
+                                     "%s which holds %r (existing maps %r)"
+                                     % (new.tolist(), nm, stored.tolist(),
+                                        [m.tolist() for m in exist]))
+                    for n, m in enumerate(exist):
+                        if h["events"]["basinmap%d" % n][:].tolist() != \
+                                m.tolist():
+                            fails.append("existing basinmap%d overwritten"
+                                         % n)
+                key = "store_basin|map-reuse"
             else:
                 return {"reproduced": False, "key": "no-replay",
                         "detail": "%r" % (v,)}
